@@ -1,7 +1,7 @@
 //! Engine `read` (property C01): reading a minidump is total — no panic, hang or runaway
 //! allocation on any bytes.
 //!
-//! case line:   `read <hex(bytes)> [cat=<generator category>]`
+//! case line:   `read cat=<generator category> <hex(bytes)>`  (corpus files: `read <hex(bytes)> [cat=..]`)
 //! model line:  `read <hex(bytes)> sizes:<size_of of the 19 element types>`
 //!
 //! `exec` runs the REAL reader on a watchdogged worker thread with the counting allocator on:
@@ -123,7 +123,9 @@ impl Out {
             Err(_) => {
                 let site = LAST_PANIC.with(|p| p.borrow().clone());
                 if self.oracle.len() < 8 {
-                    self.oracle.push(("panic".into(), format!("{what} panicked at {site}")));
+                    // a panic inside the third-party /proc parser gets its own class (known finding)
+                    let class = if site.contains("procfs-core") { "panic-procfs-core" } else { "panic" };
+                    self.oracle.push((class.into(), format!("{what} panicked at {site}")));
                 }
                 None
             }
@@ -421,6 +423,332 @@ fn show_crashpad(dump: &Dump) -> String {
             s.push(']');
             s
         }),
+    }
+}
+
+
+// ------------------------------------------------- canonical output, second group (`readExtra`)
+
+/// `format!("{r:?}")` without blanks = `MdModel.Reason.Reason.render`
+fn reason_tag(r: &CrashReason) -> String {
+    format!("{r:?}").replace(' ', "")
+}
+
+fn opt_str(s: Option<std::borrow::Cow<str>>) -> String {
+    match s {
+        None => "-".into(),
+        Some(s) => format!("={}", name_hex(&s)),
+    }
+}
+
+/// A `Write` sink that allocates nothing and keeps what the comparison needs of a printer's output:
+/// the number of lines that start with four blanks (hex-dump / stack-dump lines), the length of the
+/// last such line after its `": "`, and the number of lines that start with a given marker.
+struct LineScan {
+    buf: [u8; 96],
+    len: usize,
+    total: usize,
+    dump_lines: u64,
+    last_value_len: usize,
+    marker: &'static [u8],
+    marked: u64,
+}
+impl LineScan {
+    fn new(marker: &'static [u8]) -> Self {
+        LineScan { buf: [0; 96], len: 0, total: 0, dump_lines: 0, last_value_len: 0, marker, marked: 0 }
+    }
+    fn end_line(&mut self) {
+        let line = &self.buf[..self.len];
+        if line.starts_with(b"    ") && line.len() > 4 && line[4] != b' ' {
+            if let Some(p) = line.windows(2).position(|w| w == b": ") {
+                self.dump_lines += 1;
+                // the value may run past the kept prefix; `total` is the true line length
+                self.last_value_len = self.total - (p + 2);
+            }
+        }
+        if !self.marker.is_empty() && line.starts_with(self.marker) {
+            self.marked += 1;
+        }
+        self.len = 0;
+        self.total = 0;
+    }
+}
+impl Write for LineScan {
+    fn write(&mut self, b: &[u8]) -> std::io::Result<usize> {
+        for &c in b {
+            if c == b'\n' {
+                self.end_line();
+            } else {
+                if self.len < self.buf.len() {
+                    self.buf[self.len] = c;
+                    self.len += 1;
+                }
+                self.total += 1;
+            }
+        }
+        Ok(b.len())
+    }
+    fn flush(&mut self) -> std::io::Result<()> {
+        Ok(())
+    }
+}
+
+fn ctx_kind(c: &MinidumpContext) -> (&'static str, u64, u64) {
+    // (variant name, context_flags, wrapping sum of the registers `print` reaches by index)
+    use MinidumpRawContext::*;
+    const MIPS_PRINTED: [usize; 12] = [16, 17, 18, 19, 20, 21, 22, 23, 28, 29, 30, 31];
+    match &c.raw {
+        X86(r) => ("X86", r.context_flags as u64, 0),
+        Amd64(r) => ("Amd64", r.context_flags as u64, 0),
+        Ppc(r) => ("Ppc", r.context_flags as u64, 0),
+        Ppc64(r) => ("Ppc64", r.context_flags, 0),
+        Sparc(r) => ("Sparc", r.context_flags as u64, 0),
+        Arm(r) => ("Arm", r.context_flags as u64, 0),
+        Arm64(r) => ("Arm64", r.context_flags as u64, r.iregs.iter().fold(0u64, |a, v| a.wrapping_add(*v))),
+        OldArm64(r) => ("OldArm64", r.context_flags, r.iregs.iter().fold(0u64, |a, v| a.wrapping_add(*v))),
+        Mips(r) => ("Mips", r.context_flags as u64, MIPS_PRINTED.iter().fold(0u64, |a, i| a.wrapping_add(r.iregs[*i]))),
+    }
+}
+
+/// `MinidumpContext::read` on the bytes a location descriptor selects + the accessor that wraps it
+/// (`accessor` = what `MinidumpThread::context` / `MinidumpException::context` returned)
+fn show_ctx(
+    all: &[u8],
+    loc: &md::MINIDUMP_LOCATION_DESCRIPTOR,
+    endian: scroll::Endian,
+    sys: &MinidumpSystemInfo,
+    accessor: Option<std::borrow::Cow<MinidumpContext>>,
+    sink: &mut Sink,
+) -> String {
+    let start = loc.rva as usize;
+    let bytes = start.checked_add(loc.data_size as usize).and_then(|end| all.get(start..end));
+    let Some(bytes) = bytes else {
+        return if accessor.is_none() { "-".into() } else { "MISMATCH:accessor-without-bytes".into() };
+    };
+    match MinidumpContext::read(bytes, endian, sys, None) {
+        Err(ContextError::ReadFailure) => if accessor.is_none() { "e:read".into() } else { "MISMATCH:accessor".into() },
+        Err(ContextError::UnknownCpuContext) => if accessor.is_none() { "e:unknown".into() } else { "MISMATCH:accessor".into() },
+        Ok(direct) => {
+            let Some(c) = accessor else { return "MISMATCH:accessor-none".into() };
+            let _ = c.print(sink);
+            let (kind, flags, printed) = ctx_kind(&c);
+            let (k2, f2, _) = ctx_kind(&direct);
+            if (kind, flags) != (k2, f2) {
+                return "MISMATCH:accessor-differs".into();
+            }
+            format!("{}:{}:{}:{}:{}", kind, flags, c.get_instruction_pointer(), c.get_stack_pointer(), printed)
+        }
+    }
+}
+
+fn show_sys(dump: &Dump) -> String {
+    match dump.get_stream::<MinidumpSystemInfo>() {
+        Err(e) => err_name(&e),
+        Ok(s) => meter::unmetered(|| {
+            let r = &s.raw;
+            format!(
+                "ok {}/{}/{}/{}/{}/{}/{}/{}/{}/{}/{}/{}/csd{}/{}/i{}",
+                r.processor_architecture,
+                r.processor_level,
+                r.processor_revision,
+                r.number_of_processors,
+                r.product_type,
+                r.major_version,
+                r.minor_version,
+                r.build_number,
+                r.platform_id,
+                r.csd_version_rva,
+                r.suite_mask,
+                hex(&r.cpu.data),
+                opt_str(s.csd_version()),
+                s.cpu,
+                match s.cpu_info() {
+                    None => "-".to_string(),
+                    Some(t) => format!("={}", hex(t.as_bytes())),
+                }
+            )
+        }),
+    }
+}
+
+fn show_threads_x(dump: &Dump, all: &[u8]) -> String {
+    let Ok(l) = dump.get_stream::<MinidumpThreadList>() else { return "-".into() };
+    let sys = dump.get_stream::<MinidumpSystemInfo>().ok();
+    let mem = dump.get_memory().unwrap_or_default();
+    let cpu = sys.as_ref().map(|s| s.cpu).unwrap_or(Cpu::Unknown(0));
+    let mut sink = Sink(0);
+    let mut out = meter::unmetered(|| String::from("ok["));
+    for t in &l.threads {
+        let ctx = match &sys {
+            None => "-".to_string(),
+            Some(s) => show_ctx(all, &t.raw.thread_context, dump.endian, s, t.context(s, None), &mut sink),
+        };
+        let stk = match t.stack_memory(&mem) {
+            None => "-".to_string(),
+            Some(m) => format!("{}:{}:{}", m.base_address(), m.size(), (m.bytes().as_ptr() as usize).wrapping_sub(all.as_ptr() as usize)),
+        };
+        let les: Vec<String> = [cpu, Cpu::X86, Cpu::X86_64]
+            .iter()
+            .map(|c| match t.last_error(*c, &mem) {
+                None => "-".to_string(),
+                Some(r) => reason_tag(&r),
+            })
+            .collect();
+        let mut scan = LineScan::new(b"");
+        let _ = t.print(&mut scan, Some(&mem), sys.as_ref(), None, false);
+        let printed = scan.dump_lines * (scan.last_value_len.saturating_sub(2) as u64 / 2);
+        meter::unmetered(|| {
+            let _ = write!(out, "{}/{}/{}/{}/{};", t.raw.thread_id, ctx, stk, les.join(","), printed);
+        });
+    }
+    out.push(']');
+    out
+}
+
+fn show_exc_x(dump: &Dump, all: &[u8]) -> (String, String) {
+    let (Ok(x), Ok(sys)) = (dump.get_stream::<MinidumpException>(), dump.get_stream::<MinidumpSystemInfo>()) else {
+        return ("-".into(), "-".into());
+    };
+    let mut sink = Sink(0);
+    let ctx = show_ctx(all, &x.raw.thread_context, dump.endian, &sys, x.context(&sys, None), &mut sink);
+    let ctx = if ctx == "-" { "0".to_string() } else { ctx };
+    let rsn = format!("{}/{}", reason_tag(&x.get_crash_reason(sys.os, sys.cpu)), x.get_crash_address(sys.os, sys.cpu));
+    (ctx, rsn)
+}
+
+fn show_mem_printed(dump: &Dump) -> String {
+    let Some(mem) = dump.get_memory() else { return "-".into() };
+    let Some(r) = mem.iter().next() else { return "-".into() };
+    if r.bytes().len() > 65536 {
+        return "-".into();
+    }
+    let mut scan = LineScan::new(b"");
+    let _ = r.print(&mut scan, false);
+    (scan.dump_lines * 16).to_string()
+}
+
+fn span_of(base: *const u8, s: &[u8]) -> String {
+    format!("{}+{}", (s.as_ptr() as usize).wrapping_sub(base as usize), s.len())
+}
+
+macro_rules! show_kv_stream {
+    ($dump:expr, $t:ty) => {
+        match $dump.get_stream::<$t>() {
+            Err(e) => err_name(&e),
+            Ok(s) => {
+                let raw = s.raw_bytes();
+                let base = raw.as_ptr();
+                let mut out = meter::unmetered(|| String::from("ok["));
+                for (k, v) in s.iter() {
+                    meter::unmetered(|| {
+                        let _ = write!(out, "{}:{};", span_of(base, k.as_bytes()), span_of(base, v.as_bytes()));
+                    });
+                }
+                out.push(']');
+                out
+            }
+        }
+    };
+}
+
+fn show_limits(dump: &Dump) -> String {
+    match dump.get_stream::<MinidumpLinuxProcLimits>() {
+        Err(e) => err_name(&e),
+        Ok(s) => {
+            let raw = s.raw_bytes();
+            let base = raw.as_ptr();
+            let mut out = meter::unmetered(|| String::from("ok["));
+            for l in s.iter() {
+                meter::unmetered(|| {
+                    let _ = write!(out, "{};", span_of(base, l.as_bytes()));
+                });
+            }
+            out.push(']');
+            out
+        }
+    }
+}
+
+fn show_breakpad(dump: &Dump) -> String {
+    match dump.get_stream::<MinidumpBreakpadInfo>() {
+        Err(e) => err_name(&e),
+        Ok(i) => {
+            let o = |v: Option<u32>| v.map(|x| x.to_string()).unwrap_or_else(|| "-".into());
+            // `raw` is private: the validity word is read off the printer's output
+            let mut text = meter::unmetered(|| Vec::with_capacity(512));
+            let _ = i.print(&mut text);
+            meter::unmetered(|| {
+                let text = String::from_utf8_lossy(&text);
+                let validity = text
+                    .lines()
+                    .find_map(|l| l.trim().strip_prefix("validity").map(|r| r.trim().trim_start_matches('=').trim().to_string()))
+                    .and_then(|v| u32::from_str_radix(v.trim_start_matches("0x"), 16).ok());
+                format!("ok {}/{}/{}", validity.map(|v| v.to_string()).unwrap_or_else(|| "?".into()), o(i.dump_thread_id), o(i.requesting_thread_id))
+            })
+        }
+    }
+}
+
+fn show_assertion(dump: &Dump) -> String {
+    match dump.get_stream::<MinidumpAssertion>() {
+        Err(e) => err_name(&e),
+        Ok(a) => {
+            let (ex, fun, file) = (a.expression(), a.function(), a.file());
+            meter::unmetered(|| format!("ok {}/{}/{}/{}/{}", opt_name(&ex), opt_name(&fun), opt_name(&file), a.raw.line, a.raw._type))
+        }
+    }
+}
+
+fn show_mac(dump: &Dump) -> String {
+    match dump.get_stream::<MinidumpMacCrashInfo>() {
+        Err(e) => format!("{}/0", err_name(&e)),
+        Ok(m) => {
+            let mut scan = LineScan::new(b"  RECORD[");
+            let _ = m.print(&mut scan);
+            meter::unmetered(|| {
+                let mut s = String::from("ok[");
+                for r in &m.raw {
+                    let strs = |v: [&String; 5]| v.iter().map(|x| hex(x.as_bytes())).collect::<Vec<_>>().join(",");
+                    match r {
+                        RawMacCrashInfo::V1(f, _) => {
+                            let _ = write!(s, "1/{},{}/;", f.stream_type, f.version);
+                        }
+                        RawMacCrashInfo::V4(f, t) => {
+                            let _ = write!(
+                                s,
+                                "4/{},{},{},{}/{};",
+                                f.stream_type,
+                                f.version,
+                                f.thread,
+                                f.dialog_mode,
+                                strs([&t.module_path, &t.message, &t.signature_string, &t.backtrace, &t.message2])
+                            );
+                        }
+                        RawMacCrashInfo::V5(f, t) => {
+                            let _ = write!(
+                                s,
+                                "5/{},{},{},{},{}/{};",
+                                f.stream_type,
+                                f.version,
+                                f.thread,
+                                f.dialog_mode,
+                                f.abort_cause,
+                                strs([&t.module_path, &t.message, &t.signature_string, &t.backtrace, &t.message2])
+                            );
+                        }
+                    }
+                }
+                let _ = write!(s, "]/{}", scan.marked);
+                s
+            })
+        }
+    }
+}
+
+fn show_bootargs(dump: &Dump) -> String {
+    match dump.get_stream::<MinidumpMacBootargs>() {
+        Err(e) => err_name(&e),
+        Ok(b) => meter::unmetered(|| format!("ok {}/{}/{}", b.raw.stream_type, b.raw.bootargs, opt_name(&b.bootargs))),
     }
 }
 
@@ -749,6 +1077,51 @@ fn run_case(all: &[u8], shared: &Arc<meter::Shared>) -> CaseOut {
             add(&mut o, "hnd", "get_stream::<MinidumpHandleDataStream>", &|| show_handles(&dump));
             add(&mut o, "exc", "get_stream::<MinidumpException> + print + get_crash_address", &|| show_exception(&dump));
             add(&mut o, "cp", "get_stream::<MinidumpCrashpadInfo>", &|| show_crashpad(&dump));
+            // second group (`MdModel.DumpFull.readExtra`); rendered after `getmem`
+            let mut extra: Vec<String> = Vec::new();
+            let mut addx = |o: &mut Out, tag: &str, what: &str, f: &dyn Fn() -> String| {
+                let s = o.guard(what, f).unwrap_or_else(|| "PANIC".into());
+                meter::unmetered(|| {
+                    let class = if s.starts_with("ok") { "ok" } else if s.starts_with("err ") { s.split('/').next().unwrap_or("") } else { "other" };
+                    if tag == "tx" || tag == "xctx" {
+                        for k in ["X86:", "Amd64:", "Ppc:", "Ppc64:", "Sparc:", "Arm:", "Arm64:", "OldArm64:", "Mips:", "e:read", "e:unknown", "MISMATCH"] {
+                            let pat = if tag == "tx" { format!("/{k}") } else { k.to_string() };
+                            if (tag == "tx" && s.contains(&pat)) || (tag == "xctx" && s.starts_with(&pat)) {
+                                o.tags.push(format!("{tag}-ctx={}", k.trim_end_matches(':')));
+                            }
+                        }
+                        if tag == "tx" {
+                            if s.contains("Windows") {
+                                o.tags.push("tx-last-error=some".into());
+                            }
+                            // a stack served by the memory list (not the thread's own descriptor) cannot be told
+                            // apart here; the generator's TEB-region cases cover it
+                        }
+                    }
+                    if class != "err StreamNotFound" && class != "other" {
+                        present += 1;
+                        o.tags.push(format!("{tag}={}", class.replace(' ', "-")));
+                    }
+                    extra.push(format!("{tag}:{s}"));
+                });
+            };
+            addx(&mut o, "sys", "get_stream::<MinidumpSystemInfo>", &|| show_sys(&dump));
+            addx(&mut o, "tx", "MinidumpThread::{context, stack_memory, last_error, print}", &|| show_threads_x(&dump, all));
+            let (xctx, rsn) = o
+                .guard("MinidumpException::{context, get_crash_reason, get_crash_address}", || show_exc_x(&dump, all))
+                .unwrap_or_else(|| ("PANIC".into(), "PANIC".into()));
+            addx(&mut o, "xctx", "-", &|| xctx.clone());
+            addx(&mut o, "rsn", "-", &|| rsn.clone());
+            addx(&mut o, "mpr", "MinidumpMemory::print (first region)", &|| show_mem_printed(&dump));
+            addx(&mut o, "lsb", "MinidumpLinuxLsbRelease::iter", &|| show_kv_stream!(dump, MinidumpLinuxLsbRelease));
+            addx(&mut o, "env", "MinidumpLinuxEnviron::iter", &|| show_kv_stream!(dump, MinidumpLinuxEnviron));
+            addx(&mut o, "cpui", "MinidumpLinuxCpuInfo::iter", &|| show_kv_stream!(dump, MinidumpLinuxCpuInfo));
+            addx(&mut o, "stat", "MinidumpLinuxProcStatus::iter", &|| show_kv_stream!(dump, MinidumpLinuxProcStatus));
+            addx(&mut o, "lim", "MinidumpLinuxProcLimits::iter", &|| show_limits(&dump));
+            addx(&mut o, "bp", "get_stream::<MinidumpBreakpadInfo>", &|| show_breakpad(&dump));
+            addx(&mut o, "asrt", "get_stream::<MinidumpAssertion> + accessors", &|| show_assertion(&dump));
+            addx(&mut o, "mac", "get_stream::<MinidumpMacCrashInfo> + print", &|| show_mac(&dump));
+            addx(&mut o, "boot", "get_stream::<MinidumpMacBootargs>", &|| show_bootargs(&dump));
             let gm = o
                 .guard("get_memory", || match dump.get_memory() {
                     Some(UnifiedMemoryList::Memory64(_)) => "mem64",
@@ -759,6 +1132,7 @@ fn run_case(all: &[u8], shared: &Arc<meter::Shared>) -> CaseOut {
             nontrivial = present > 0;
             line = meter::unmetered(|| {
                 parts.push(format!("getmem:{gm}"));
+                parts.extend(extra);
                 parts.join(" | ")
             });
             dump_opt = Some(dump);
@@ -775,19 +1149,25 @@ fn run_case(all: &[u8], shared: &Arc<meter::Shared>) -> CaseOut {
     CaseOut { line, oracle: o.oracle, tags: o.tags, nontrivial, a, b }
 }
 
+/// `read cat=<category> <hex>` (generated cases; the runner groups failures by the first two fields,
+/// so the category goes first) or `read <hex> [cat=<category>]` (corpus files, older replays)
 fn parse_case(case: &str) -> Option<(Vec<u8>, String)> {
     let mut it = case.split(' ').filter(|s| !s.is_empty());
     if it.next()? != "read" {
         return None;
     }
-    let bytes = unhex(it.next()?)?;
+    let mut bytes = None;
     let mut cat = String::from("corpus");
     for f in it {
         if let Some(c) = f.strip_prefix("cat=") {
             cat = c.to_string();
+        } else if bytes.is_none() {
+            bytes = Some(unhex(f)?);
+        } else {
+            return None;
         }
     }
-    Some((bytes, cat))
+    Some((bytes?, cat))
 }
 
 fn mem_sizes() -> String {
@@ -869,26 +1249,63 @@ fn arch_table() -> Vec<(u16, usize, u32, usize, bool)> {
     ]
 }
 
-/// A context record that `MinidumpContext::read` accepts for the given architecture: right size,
-/// right CPU bit in `context_flags`, arbitrary register contents.
-fn context_blob(arch: (u16, usize, u32, usize, bool), be: bool, rng: &mut Rng) -> Vec<u8> {
+/// A context record for the given architecture. `vary = false`: one that `MinidumpContext::read`
+/// accepts (right size, right CPU bit in `context_flags`, arbitrary register contents).
+/// `vary = true`: the record size is the accepted one, one byte less / more, 16 more, half, or 0,
+/// and the flags carry the right CPU bit alone, with XSTATE / unknown bits (ignored by
+/// `from_bits_truncate`), together with another CPU's bit, another CPU's bit alone, or nothing.
+fn context_blob_var(arch: (u16, usize, u32, usize, bool), be: bool, rng: &mut Rng, vary: bool) -> Vec<u8> {
     let (_, size, bit, at, wide) = arch;
     let fill = rng.below(3);
-    let mut b: Vec<u8> = (0..size)
+    let len = if !vary {
+        size
+    } else {
+        match rng.below(10) {
+            0 => size - 1,
+            1 => size + 1,
+            2 => size + 16,
+            3 => size / 2,
+            4 => 0,
+            5 => at + if wide { 8 } else { 4 },
+            _ => size,
+        }
+    };
+    let mut b: Vec<u8> = (0..len)
         .map(|_| match fill {
             0 => 0,
             1 => 0xff,
             _ => rng.next() as u8,
         })
         .collect();
-    let flags = bit | (rng.below(0x40) as u32);
-    if wide {
-        let v = flags as u64;
-        b[at..at + 8].copy_from_slice(&if be { v.to_be_bytes() } else { v.to_le_bytes() });
+    let other = [0x10000u32, 0x100000, 0x4000_0000, 0x40_0000, 0x8000_0000, 0x4_0000, 0x2000_0000, 0x100_0000, 0x1000_0000, 0x8_0000, 0x2_0000];
+    let flags: u64 = if !vary {
+        (bit | rng.below(0x40) as u32) as u64
     } else {
-        b[at..at + 4].copy_from_slice(&if be { flags.to_be_bytes() } else { flags.to_le_bytes() });
+        match rng.below(12) {
+            0 => (bit | 0x40) as u64,                                  // XSTATE
+            1 => (bit | 0x200 | 0x8000 | 0x800) as u64,                // bits no constant declares
+            2 => (bit | *rng.pick(&other)) as u64,                     // two CPUs at once (rejected unless equal)
+            3 => *rng.pick(&other) as u64,                             // another CPU
+            4 => 0,
+            5 => 0xffff_ffff,
+            6 => (bit as u64) | (rng.next() << 32),                    // high half of a 64-bit flags word
+            7 => (rng.next() as u32 & 0xff) as u64,                    // only the non-CPU byte
+            _ => (bit | rng.below(0x40) as u32) as u64,
+        }
+    };
+    if wide {
+        if b.len() >= at + 8 {
+            b[at..at + 8].copy_from_slice(&if be { flags.to_be_bytes() } else { flags.to_le_bytes() });
+        }
+    } else if b.len() >= at + 4 {
+        let f = flags as u32;
+        b[at..at + 4].copy_from_slice(&if be { f.to_be_bytes() } else { f.to_le_bytes() });
     }
     b
+}
+
+fn context_blob(arch: (u16, usize, u32, usize, bool), be: bool, rng: &mut Rng) -> Vec<u8> {
+    context_blob_var(arch, be, rng, false)
 }
 
 /// A valid dump built with minidump-synth: a random subset of every stream kind it supports.
@@ -1137,6 +1554,22 @@ fn kv_text(rng: &mut Rng, sep: u8, eol: u8) -> Vec<u8> {
 /// `/proc/<pid>/maps` text with hostile fields.
 fn maps_text(rng: &mut Rng) -> Vec<u8> {
     let mut out = String::new();
+    if rng.chance(1, 3) {
+        // well-formed lines only (the parser stops at the first malformed one), then ONE line with a
+        // path shape procfs-core's `MMapPath::from` slices, or an smaps attribute with a huge value
+        for i in 0..rng.below(3) {
+            out.push_str(&format!("{:08x}-{:08x} rw-p 00000000 00:00 0 [heap]\n", 0x10000 * (i + 1), 0x10000 * (i + 1) + 0x1000));
+        }
+        let path = *rng.pick(&[
+            "/SYSV00000000 (deleted)", "/SYSV12", "/SYSV", "/SYSV1234567\u{e9}", "/SYSVzzzzzzzz", "[stack:12]", "[stack:", "[stack:7\u{e9}",
+            "[stack:x]", "[anon:\u{e9}]", "[", "[\u{e9}", "/usr/lib/libc.so.6", "[stack:\u{e9}]",
+        ]);
+        out.push_str(&format!("00400000-0040b000 r-xp 00000000 08:01 {} {}\n", rng.below(1 << 20), path));
+        if rng.chance(1, 2) {
+            out.push_str(*rng.pick(&["Rss: 4 kB\n", "Size: 18446744073709551615 kB\n", "Rss: 18014398509481984 kB\n", "VmFlags: rd ex mr\n", "Rss: x kB\n", "Rss:\n", "Pss: 18014398509481983 kB\n"]));
+        }
+        return out.into_bytes();
+    }
     let hex = |rng: &mut Rng| -> String {
         match rng.below(10) {
             0 => "0".into(),
@@ -1157,6 +1590,22 @@ fn maps_text(rng: &mut Rng) -> Vec<u8> {
             2 => out.push_str(&format!("{lo}-{hi} {perms} {} 08:01\n", hex(rng))),
             3 => out.push_str("\n"),
             4 => out.push_str(&format!("{lo}-{hi} {perms} {} 08:01 {} /a b/c (deleted)\r\n", hex(rng), rng.below(99999))),
+            5 => {
+                // the path shapes procfs-core's `MMapPath::from` slices, and smaps attribute lines
+                let path = *rng.pick(&[
+                    "/SYSV00000000 (deleted)", "/SYSV12", "/SYSV", "/SYSV1234567\u{e9}", "/SYSVzzzzzzzz", "[stack:12]", "[stack:", "[stack:7\u{e9}",
+                    "[stack:x]", "[heap]", "[anon:\u{e9}]", "[", "[\u{e9}",
+                ]);
+                if rng.chance(2, 3) {
+                    // a well-formed prefix, so that the parser gets as far as the path column
+                    out.push_str(&format!("{:08x}-{:08x} r-xp 00000000 08:01 {} {}\n", 0x400000 + rng.below(64) * 0x1000, 0x800000 + rng.below(64) * 0x1000, rng.below(1 << 20), path));
+                } else {
+                    out.push_str(&format!("{lo}-{hi} {perms} {} 00:00 {} {}\n", hex(rng), rng.below(1 << 20), path));
+                }
+                if rng.chance(1, 2) {
+                    out.push_str(*rng.pick(&["Rss: 4 kB\n", "Size: 18446744073709551615 kB\n", "Rss: 18014398509481984 kB\n", "VmFlags: rd ex mr\n", "Rss: x kB\n", "Rss:\n"]));
+                }
+            }
             _ => out.push_str(&format!("{lo}-{hi} {perms} {} 00:00 {} {}\n", hex(rng), rng.below(1 << 33), rng.pick(&["", "[stack]", "/lib/x.so", "[vsyscall]", "\"", "   "]))),
         }
     }
@@ -1207,7 +1656,7 @@ impl W {
     }
 }
 
-fn crafted_dump(rng: &mut Rng, be: bool) -> Vec<u8> {
+fn crafted_dump(rng: &mut Rng, be: bool, idx: usize) -> Vec<u8> {
     let mut w = W { buf: Vec::new(), be };
     // header, patched at the end
     w.u32(md::MINIDUMP_SIGNATURE);
@@ -1219,57 +1668,105 @@ fn crafted_dump(rng: &mut Rng, be: bool) -> Vec<u8> {
     w.u64(0);
     let mut dir: Vec<(u32, u32, u32)> = Vec::new(); // (type, size, rva)
 
-    // system info + one context record of the matching architecture
+    // system info + context records of the matching architecture (one accepted, one varied)
     let table = arch_table();
-    let arch = *rng.pick(&table);
+    let arch = table[idx % table.len()];
     let ctx_blob = context_blob(arch, be, rng);
     let ctx_at = w.here();
     w.buf.extend_from_slice(&ctx_blob);
-    if rng.chance(5, 6) {
+    let ctx2_blob = context_blob_var(arch, be, rng, true);
+    let ctx2_at = w.here();
+    w.buf.extend_from_slice(&ctx2_blob);
+    // bytes behind the varied record, so that `data_size + 1` still lies in the file
+    w.u64(0x1122_3344_5566_7788);
+    let s_csd = w.utf16(*rng.pick(&["Service Pack 2", "", "Linux 5.4.0-42-generic #46-Ubuntu SMP x86_64", "19H2 \u{1F980}"]));
+    // a region of "process memory" holding TEBs and a stack: threads refer to it by address only
+    let teb_base: u64 = *rng.pick(&[0x7ffd_e000u64, 0x7ffd_e000, u64::MAX - 0x1ff, 0x1000]);
+    let teb_mem_at = w.here();
+    for k in 0..0x200u32 {
+        w.buf.push((k * 7 + 1) as u8);
+    }
+    let put16 = |w: &mut W, v: u16| {
+        if w.be {
+            w.buf.extend_from_slice(&v.to_be_bytes())
+        } else {
+            w.buf.extend_from_slice(&v.to_le_bytes())
+        }
+    };
+    if rng.chance(7, 8) {
         let at = w.here();
-        let put16 = |w: &mut W, v: u16| {
-            if w.be {
-                w.buf.extend_from_slice(&v.to_be_bytes())
-            } else {
-                w.buf.extend_from_slice(&v.to_le_bytes())
-            }
-        };
-        put16(&mut w, arch.0);
-        put16(&mut w, 6);
-        put16(&mut w, 0x0102);
+        let r16 = rng.next() as u16;
+        let pa = if rng.chance(1, 6) { *rng.pick(&[6u16, 0x8004, 0xffff, 2, 4, 7, 8, 11, 13, 0x8000, r16]) } else { arch.0 };
+        put16(&mut w, pa);
+        put16(&mut w, *rng.pick(&[6u16, 7, 8, 0, 0xffff]));
+        put16(&mut w, rng.next() as u16);
         w.buf.push(4);
         w.buf.push(1);
         w.u32(10);
         w.u32(0);
         w.u32(19041);
         w.u32(*rng.pick(&[2u32, 3, 0x8101, 0x8102, 0x8201, 0x8203, 0x8204, 7]));
-        w.u32(*rng.pick(&[0u32, 0, ctx_at, u32::MAX]));
+        w.u32(*rng.pick(&[s_csd, s_csd, s_csd, 0, ctx_at, u32::MAX, s_csd + 1, s_csd + 2]));
         put16(&mut w, 0);
         put16(&mut w, 0);
-        for _ in 0..24 {
-            w.buf.push(rng.next() as u8);
+        if pa == 5 {
+            // ARMCpuInfo: cpuid (known vendor/part now and then), elf_hwcaps
+            let (r1, r2) = (rng.next() as u32, rng.next() as u32);
+            w.u32(*rng.pick(&[0x410f_c090u32, 0x510f_06f2, 0x4100_b360, 0x6900_0000, 0, r1]));
+            w.u32(*rng.pick(&[0u32, 1, 0x0006_0000, u32::MAX, r2]));
+            for _ in 0..16 {
+                w.buf.push(rng.next() as u8);
+            }
+        } else {
+            for k in 0..24 {
+                w.buf.push(if k < 12 { b"GenuineIntel"[k] } else { rng.next() as u8 });
+            }
         }
-        dir.push((7, w.here() - at, at));
+        // sometimes one byte short / long
+        let sz = (w.here() - at).wrapping_add(*rng.pick(&[0u32, 0, 0, 0, 0, 0, 1, u32::MAX]));
+        dir.push((7, sz, at));
     }
-    // a thread list whose contexts are that record
-    if rng.chance(2, 3) {
+    // a thread list whose contexts are those records
+    if rng.chance(3, 4) {
         let at = w.here();
-        let n = 1 + rng.below(2) as u32;
+        let n = 1 + rng.below(3) as u32;
         w.u32(n);
         for i in 0..n {
             w.u32(0x200 + i);
             w.u32(0);
             w.u32(0);
             w.u32(0);
-            w.u64(*rng.pick(&[0u64, 0x7ffd_e000, u64::MAX, u64::MAX - 100]));
-            w.u64(0xa000_0000);
-            w.u32(*rng.pick(&[64u32, 0, u32::MAX]));
-            w.u32(*rng.pick(&[ctx_at, 0, 32]));
-            w.u32(ctx_blob.len() as u32);
-            w.u32(ctx_at);
+            // teb: so that teb + 13 * pointer-width falls into / next to / far from the TEB region
+            w.u64(*rng.pick(&[teb_base, teb_base.wrapping_add(0x100), teb_base.wrapping_add(0x1f8 - 52), teb_base.wrapping_add(0x1f8 - 104), 0, u64::MAX, u64::MAX - 100, teb_base.wrapping_sub(60)]));
+            // stack: own memory, or (rva 0 / size 0) only an address inside the TEB region
+            w.u64(*rng.pick(&[0xa000_0000u64, teb_base.wrapping_add(0x80), teb_base, teb_base.wrapping_add(0x1ff), teb_base.wrapping_add(0x200)]));
+            w.u32(*rng.pick(&[64u32, 0, u32::MAX, 0x200, 7, 8, 9]));
+            w.u32(*rng.pick(&[ctx_at, 0, 0, 32, teb_mem_at]));
+            let (blob_at, blob_len) = if rng.chance(1, 2) { (ctx_at, ctx_blob.len() as u32) } else { (ctx2_at, ctx2_blob.len() as u32) };
+            w.u32(match rng.below(8) {
+                0 => blob_len.wrapping_sub(1),
+                1 => blob_len + 1,
+                2 => 0,
+                3 => u32::MAX,
+                _ => blob_len,
+            });
+            w.u32(*rng.pick(&[blob_at, blob_at, blob_at, blob_at, 0, u32::MAX]));
         }
         dir.push((3, w.here() - at, at));
     }
+    // the key/value text streams, grammar-generated, at the raw byte level
+    if rng.chance(1, 2) {
+        for (ty, sep) in [(0x4767_0005u32, b'='), (0x4767_0007, b'='), (0x4767_0003, b':'), (0x4767_0004, b':'), (0x4d7a_0003, b' ')] {
+            if rng.chance(3, 4) {
+                let eol = if ty == 0x4767_0007 && rng.chance(1, 2) { 0 } else { b'\n' };
+                let t = kv_text(rng, sep, eol);
+                let at = w.here();
+                w.buf.extend_from_slice(&t);
+                dir.push((ty, t.len() as u32, at));
+            }
+        }
+    }
+    let teb_region = (teb_base, 0x200u32, teb_mem_at);
 
     // strings
     let s_type = w.utf16("Event");
@@ -1326,8 +1823,8 @@ fn crafted_dump(rng: &mut Rng, be: bool) -> Vec<u8> {
         }
         dir.push((12, w.here() - at, at));
     }
-    // memory64 list
-    if rng.chance(2, 3) {
+    // memory64 list (its first region is the TEB region when the data directly follows it)
+    if rng.chance(1, 2) {
         let n = rng.below(4);
         let sizes: Vec<u64> = (0..n).map(|_| rng.below(40)).collect();
         let data_at = w.here();
@@ -1378,9 +1875,12 @@ fn crafted_dump(rng: &mut Rng, be: bool) -> Vec<u8> {
         for k in 0..15u64 {
             w.u64(k * 0x1111_1111_1111);
         }
-        if rng.chance(2, 3) {
+        if rng.chance(1, 3) {
             w.u32(ctx_blob.len() as u32);
             w.u32(ctx_at);
+        } else if rng.chance(1, 2) {
+            w.u32((ctx2_blob.len() as u32).wrapping_add(*rng.pick(&[0u32, 0, 1, u32::MAX])));
+            w.u32(ctx2_at);
         } else {
             w.u32(*rng.pick(&[0u32, 16, u32::MAX]));
             w.u32(*rng.pick(&[0u32, 32, at, u32::MAX]));
@@ -1388,7 +1888,7 @@ fn crafted_dump(rng: &mut Rng, be: bool) -> Vec<u8> {
         dir.push((6, w.here() - at, at));
     }
     // memory list whose descriptors point at themselves / the directory
-    if rng.chance(1, 2) {
+    if rng.chance(2, 3) {
         let at = w.here();
         let n = 1 + rng.below(3) as u32;
         w.u32(n);
@@ -1396,6 +1896,13 @@ fn crafted_dump(rng: &mut Rng, be: bool) -> Vec<u8> {
             w.u32(0); // 4 bytes of padding
         }
         for i in 0..n {
+            if i == 0 && rng.chance(2, 3) {
+                // the TEB / stack region threads refer to by address
+                w.u64(teb_region.0);
+                w.u32(teb_region.1);
+                w.u32(teb_region.2);
+                continue;
+            }
             w.u64(if rng.chance(1, 6) { u64::MAX - 3 } else { 0xa000_0000 + i as u64 * 0x100 });
             w.u32(*rng.pick(&[16u32, 0, 4, u32::MAX]));
             w.u32(*rng.pick(&[at, 0, 32, u32::MAX, at + 4]));
@@ -1449,48 +1956,68 @@ fn crafted_dump(rng: &mut Rng, be: bool) -> Vec<u8> {
         dir.push((0x4767_0002, w.here() - at, at));
     }
     if rng.chance(1, 2) {
-        // records first, then the header pointing at them
-        let version = *rng.pick(&[1u64, 4, 5, 5, 6, 0, u64::MAX]);
+        // records first, then the header pointing at them. Every record version, string tables that
+        // end early (missing terminator / record cut inside a string), `record_start_size` at, below
+        // and beyond the fixed part, more than 20 records claimed, mixed versions.
+        let version = *rng.pick(&[1u64, 2, 3, 4, 4, 5, 5, 5, 6, 0, u64::MAX]);
         let fixed: u32 = match version {
             0..=3 => 16,
             4 => 32,
             _ => 40,
         };
-        let start = *rng.pick(&[fixed, fixed, fixed + 8, 0, 8, u32::MAX]);
+        let start = *rng.pick(&[fixed, fixed, fixed, fixed + 8, fixed - 1, fixed - 8, 0, 8, 16, 32, 40, 41, 0x1000, u32::MAX]);
         let n = rng.below(4) as u32;
         let mut recs = Vec::new();
         for _ in 0..n {
             let at = w.here();
-            w.u64(0x4d7a_0001);
-            w.u64(if rng.chance(1, 8) { version.wrapping_add(1) } else { version });
+            w.u64(if rng.chance(1, 8) { rng.next() } else { 0x4d7a_0001 });
+            w.u64(if rng.chance(1, 8) { *rng.pick(&[1u64, 4, 5, 0, version.wrapping_add(1)]) } else { version });
             for _ in 2..fixed / 8 {
                 w.u64(rng.next());
             }
             for _ in fixed..start.min(64) {
                 w.buf.push(0x2e);
             }
-            for k in 0..5 {
-                if rng.chance(1, 10) {
-                    break; // missing strings / terminator
+            let nstr = *rng.pick(&[5u32, 5, 5, 4, 6, 0, 1]);
+            for k in 0..nstr {
+                match rng.below(12) {
+                    0 => {}                                                    // empty string
+                    1 => w.buf.extend_from_slice(b"caf\xc3\xa9 \xf0\x9f\xa6\x80"),
+                    2 => w.buf.extend_from_slice(b"bad \xff\xfe utf8"),
+                    3 => w.buf.extend(std::iter::repeat(b'x').take(rng.range(200, 1200) as usize)),
+                    _ => w.buf.extend_from_slice(format!("string number {k}").as_bytes()),
                 }
-                w.buf.extend_from_slice(format!("string number {k}").as_bytes());
-                if rng.chance(1, 10) {
-                    w.buf.push(0xff);
+                if !rng.chance(1, 16) {
+                    w.buf.push(0); // (else: missing terminator, the next string is glued on)
                 }
-                w.buf.push(0);
             }
-            recs.push((w.here() - at, at));
+            let full = w.here() - at;
+            // the descriptor's size: the whole record, cut somewhere (inside the string table or the
+            // fixed part), one byte short, empty, or reaching past the record into what follows
+            let sz = match rng.below(10) {
+                0 => full - 1,
+                1 => rng.below(full as u64 + 1) as u32,
+                2 => 0,
+                3 => full + 4,
+                4 => fixed,
+                5 => start.min(full),
+                _ => full,
+            };
+            recs.push((sz, at));
         }
+        w.u32(0); // something readable behind the last record
         let at = w.here();
-        w.u32(0x4d7a_0001);
-        w.u32(if rng.chance(1, 6) { *rng.pick(&[21u32, 255, u32::MAX]) } else { n });
+        w.u32(if rng.chance(1, 8) { rng.next() as u32 } else { 0x4d7a_0001 });
+        w.u32(if rng.chance(1, 6) { *rng.pick(&[20u32, 21, 255, u32::MAX]) } else { n });
         w.u32(start);
         for k in 0..20 {
-            let (sz, rva) = recs.get(k).copied().unwrap_or((0, 0));
+            // beyond the real records: empty descriptors, or aliases of the first record
+            let (sz, rva) = recs.get(k).copied().unwrap_or(if rng.chance(1, 3) { recs.first().copied().unwrap_or((0, 0)) } else { (0, 0) });
             w.u32(sz);
-            w.u32(if rng.chance(1, 12) { u32::MAX } else { rva });
+            w.u32(if rng.chance(1, 16) { *rng.pick(&[u32::MAX, 0, at]) } else { rva });
         }
-        dir.push((0x4d7a_0001, w.here() - at, at));
+        let sz = (w.here() - at).wrapping_sub(*rng.pick(&[0u32, 0, 0, 0, 0, 1, 8]));
+        dir.push((0x4d7a_0001, sz, at));
     }
     if rng.chance(1, 3) {
         let at = w.here();
@@ -1515,6 +2042,158 @@ fn crafted_dump(rng: &mut Rng, be: bool) -> Vec<u8> {
     w.put32(8, dir.len() as u32);
     w.put32(12, dir_at);
     w.buf
+}
+
+
+/// header (patched by `finish_dump`) — the directed writers below share it
+fn start_dump(be: bool) -> W {
+    let mut w = W { buf: Vec::new(), be };
+    w.u32(md::MINIDUMP_SIGNATURE);
+    w.u32(md::MINIDUMP_VERSION);
+    for _ in 0..6 {
+        w.u32(0);
+    }
+    w
+}
+
+fn finish_dump(mut w: W, dir: &[(u32, u32, u32)]) -> Vec<u8> {
+    let dir_at = w.here();
+    for (t, s_, r) in dir {
+        w.u32(*t);
+        w.u32(*s_);
+        w.u32(*r);
+    }
+    w.put32(8, dir.len() as u32);
+    w.put32(12, dir_at);
+    w.buf
+}
+
+fn put_sysinfo(w: &mut W, arch: u16, platform: u32, csd: u32) -> (u32, u32, u32) {
+    let at = w.here();
+    let put16 = |w: &mut W, v: u16| {
+        if w.be {
+            w.buf.extend_from_slice(&v.to_be_bytes())
+        } else {
+            w.buf.extend_from_slice(&v.to_le_bytes())
+        }
+    };
+    put16(w, arch);
+    put16(w, 6);
+    put16(w, 0x0d08);
+    w.buf.push(2);
+    w.buf.push(1);
+    w.u32(10);
+    w.u32(0);
+    w.u32(19041);
+    w.u32(platform);
+    w.u32(csd);
+    put16(w, 0);
+    put16(w, 0);
+    w.buf.extend_from_slice(b"GenuineIntel\x01\x02\x03\x04\x05\x06\x07\x08\x09\x0a\x0b\x0c");
+    (7, w.here() - at, at)
+}
+
+/// Directed: ONE context record of architecture `arch`, of the accepted size + `delta` bytes (the
+/// descriptor says `size + ddelta`), flags variant `fv`, read through a thread and through the
+/// exception stream. System info says `sys_arch`.
+fn ctx_matrix_dump(arch: (u16, usize, u32, usize, bool), sys_arch: u16, delta: i32, ddelta: i32, fv: u32, be: bool) -> Vec<u8> {
+    let mut w = start_dump(be);
+    let (_, size, bit, at, wide) = arch;
+    let len = (size as i32 + delta).max(0) as usize;
+    let mut blob: Vec<u8> = (0..len).map(|k| (k * 13 + 5) as u8).collect();
+    let flags: u64 = match fv {
+        0 => bit as u64,
+        1 => (bit | 0x7f) as u64,            // every non-CPU bit of the low byte (XSTATE included)
+        2 => (bit | 0xff00) as u64,          // bits no `ContextFlagsCpu` constant declares
+        3 => (bit | if bit == 0x10000 { 0x100000 } else { 0x10000 }) as u64, // a second CPU
+        4 => 0,
+        5 => (bit as u64) | 0xdead_beef_0000_0000, // high half (64-bit flag words only)
+        _ => if bit == 0x10000 { 0x100000 } else { 0x10000 },
+    };
+    if wide {
+        if blob.len() >= at + 8 {
+            blob[at..at + 8].copy_from_slice(&if be { flags.to_be_bytes() } else { flags.to_le_bytes() });
+        }
+    } else if blob.len() >= at + 4 {
+        let f = flags as u32;
+        blob[at..at + 4].copy_from_slice(&if be { f.to_be_bytes() } else { f.to_le_bytes() });
+    }
+    let ctx_at = w.here();
+    w.buf.extend_from_slice(&blob);
+    for _ in 0..24 {
+        w.buf.push(0xee); // what a too-long descriptor reads into
+    }
+    let dsize = (size as i32 + ddelta).max(0) as u32;
+    let mut dir = vec![put_sysinfo(&mut w, sys_arch, 2, 0)];
+    // thread list: one thread, TEB far away, no stack
+    let tl = w.here();
+    w.u32(1);
+    w.u32(0x111);
+    w.u32(0);
+    w.u32(0);
+    w.u32(0);
+    w.u64(0x7ffd_e000);
+    w.u64(0);
+    w.u32(0);
+    w.u32(0);
+    w.u32(dsize);
+    w.u32(ctx_at);
+    dir.push((3, w.here() - tl, tl));
+    // exception
+    let ex = w.here();
+    w.u32(0x111);
+    w.u32(0);
+    w.u32(0xC000_0005);
+    w.u32(0);
+    w.u64(0);
+    w.u64(0x4011_2233);
+    w.u32(2);
+    w.u32(0);
+    for k in 0..15u64 {
+        w.u64(k + 1);
+    }
+    w.u32(dsize);
+    w.u32(ctx_at);
+    dir.push((6, w.here() - ex, ex));
+    finish_dump(w, &dir)
+}
+
+/// Directed: one macOS crash-info record of `version` whose descriptor is cut after `cut` bytes
+/// (every prefix of the record: inside the fixed part, at the start of the string table, inside and
+/// between the strings), strings starting at `start`.
+fn mac_cut_dump(version: u64, start_delta: i32, cut: u32, nrec: u32, be: bool) -> (Vec<u8>, u32) {
+    let mut w = start_dump(be);
+    let fixed: u32 = match version {
+        0..=3 => 16,
+        4 => 32,
+        _ => 40,
+    };
+    let start = (fixed as i32 + start_delta).max(0) as u32;
+    let at = w.here();
+    w.u64(0x4d7a_0001);
+    w.u64(version);
+    for k in 2..fixed / 8 {
+        w.u64(0x1000 + k as u64);
+    }
+    for _ in fixed..start {
+        w.buf.push(b'.');
+    }
+    for s_ in [&b"/usr/lib/libfoo.dylib"[..], b"message", b"", b"bt \xc3\xa9", b"m2"] {
+        w.buf.extend_from_slice(s_);
+        w.buf.push(0);
+    }
+    let full = w.here() - at;
+    w.u32(0x5a5a_5a5a);
+    let hdr = w.here();
+    w.u32(0x4d7a_0001);
+    w.u32(nrec);
+    w.u32(start);
+    for _ in 0..20 {
+        w.u32(cut.min(full + 4));
+        w.u32(at);
+    }
+    let dir = vec![(0x4d7a_0001u32, w.here() - hdr, hdr)];
+    (finish_dump(w, &dir), full)
 }
 
 /// Long lists (thousands of entries): recursion depth / quadratic behaviour / allocation sizes at scale.
@@ -1648,7 +2327,7 @@ fn interesting_offsets(b: &[u8]) -> (bool, Vec<usize>) {
 }
 
 fn case_line(bytes: &[u8], cat: &str) -> String {
-    format!("read {} cat={}", hex(bytes), cat)
+    format!("read cat={} {}", cat, hex(bytes))
 }
 
 impl Engine for Read {
@@ -1658,13 +2337,19 @@ impl Engine for Read {
     fn rule(&self) -> String {
         "inputs: arbitrary bytes; valid dumps (minidump-synth: threads/contexts, modules+CodeView, unloaded modules, memory, memory64, \
          memory info, thread names, handles, exception, system/misc/crashpad info, linux text streams; a hand-rolled writer for 40-byte \
-         handle descriptors with object-info chains, memory64, thread info; the in-tree testdata/*.dmp), both byte orders; truncations; \
-         header/directory/stream fields replaced by 0,1,len-1,len,len+1,2^31,2^32-1; cyclic and self-referential RVAs; byte flips. \
+         handle descriptors with object-info chains, memory64, thread info, per-CPU context records of every architecture in rotation (accepted and \
+         varied: size +-1/+16/half/0, flags with XSTATE/undeclared bits/a second CPU/another CPU), system infos naming the same, another, an unknown architecture, \
+         a TEB region reached by address (stack fallback, last_error), grammar-generated key/value text streams, Breakpad info, assertion info, macOS crash info \
+         of every version with cut / unterminated / non-UTF-8 string tables, boot args; directed: every architecture x size delta x flags variant, one macOS record \
+         cut at every byte; the in-tree testdata/*.dmp), both byte orders; truncations; header/directory/stream fields replaced by 0,1,len-1,len,len+1,2^31,2^32-1; \
+         cyclic and self-referential RVAs; byte flips; /proc/maps text with the path shapes procfs-core slices. \
          Non-trivial: the header parses and at least one modelled stream type is present in the directory (its read may fail). \
          Oracle (per operation): no panic, time budget, largest request <= 32n+64KiB, total <= 2n^2+1024n+4MiB, never > 1 GiB (allocator guard); \
-         model: outcome class and parsed numbers of Minidump::read + 11 stream readers (incl. Crashpad info) + exception print loop + crash address; \
+         model (MdModel.DumpFull.readFull): outcome class and parsed numbers of Minidump::read + 11 list/record stream readers + exception print loop + crash address, and of the \
+         system info (cpu_info text), every thread's and the exception's CPU context (through the accessor and a direct read), stack_memory, last_error x3, the stack / memory dump \
+         loops of the printers, crash reason + address, the five text-stream iterators (every key/value as offset+length into the stream), Breakpad / assertion / macOS crash info / boot args; \
          the model's exact allocations must occur among the real allocator's requests. \
-         Oracle-only (not modelled): all other streams, contexts, every print, every accessor."
+         Oracle-only (not modelled): misc info, linux maps, unified memory info, the text every print emits, the remaining accessors."
             .into()
     }
 
@@ -1695,10 +2380,42 @@ impl Engine for Read {
             seeds.push(synth_dump(rng, i % 2 == 1));
         }
         for i in 0..40 * scale {
-            seeds.push(crafted_dump(rng, i % 4 == 3));
+            seeds.push(crafted_dump(rng, i % 4 == 3, i as usize));
         }
         for s in seeds.iter().chain(big_seeds.iter()) {
             emit(case_line(s, "valid"));
+        }
+        // ---- directed: every architecture's context record at the accepted size and one byte off,
+        // with every flags variant, through a thread and the exception stream; a system info that
+        // names another architecture
+        let table = arch_table();
+        for (ai, arch) in table.iter().enumerate() {
+            for (delta, ddelta) in [(0, 0), (-1, -1), (1, 1), (0, 1), (0, -1), (16, 16), (0, 24)] {
+                for fv in 0..7u32 {
+                    if (delta, ddelta) != (0, 0) && fv > 1 && tier == Tier::Quick {
+                        continue;
+                    }
+                    emit(case_line(&ctx_matrix_dump(*arch, arch.0, delta, ddelta, fv, (ai + fv as usize) % 2 == 1), "directed-ctx"));
+                }
+            }
+            for other in [table[(ai + 1) % table.len()].0, 6, 0x8004, 0xffff, 2] {
+                emit(case_line(&ctx_matrix_dump(*arch, other, 0, 0, 0, ai % 2 == 0), "directed-ctx"));
+            }
+        }
+        // ---- directed: macOS crash-info records of every version, cut at every byte
+        for version in [0u64, 1, 3, 4, 5, 6, u64::MAX] {
+            let (_, full) = mac_cut_dump(version, 0, 0, 1, false);
+            let step = if tier == Tier::Quick { 3 } else { 1 };
+            let mut cut = 0;
+            while cut <= full + 4 {
+                emit(case_line(&mac_cut_dump(version, 0, cut, 1, (cut / step) % 2 == 1).0, "directed-mac"));
+                cut += step;
+            }
+            for sd in [-1, -8, 1, 8, 200, -100] {
+                for nrec in [1u32, 2, 20, 21, u32::MAX] {
+                    emit(case_line(&mac_cut_dump(version, sd, full, nrec, false).0, "directed-mac"));
+                }
+            }
         }
         // ---- arbitrary bytes
         for i in 0..300 * scale {
@@ -1939,13 +2656,25 @@ impl Engine for Read {
             // re-running a case that leaves a stuck worker behind costs up to 1 GiB each time
             return case.to_string();
         }
+        // a broken reader fails on thousands of cases (the case "shape" the runner groups failures by
+        // contains the whole payload, so they are all kept): shrink the first few only
+        // a registered finding (the third-party /proc parser) needs no minimised input on every run: its
+        // witnesses are in corpus/read/finding-procfs-mmappath.txt
+        let r0 = self.exec(case);
+        if !r0.oracle.is_empty() && r0.oracle.iter().all(|(c, _)| c == "panic-procfs-core") {
+            return case.to_string();
+        }
+        static SHRUNK: std::sync::atomic::AtomicUsize = std::sync::atomic::AtomicUsize::new(0);
+        if SHRUNK.fetch_add(1, std::sync::atomic::Ordering::SeqCst) >= 6 {
+            return case.to_string();
+        }
         let t0 = Instant::now();
         let mut evals = 0;
         let mut ok = |b: &[u8], evals: &mut u32| -> bool {
             *evals += 1;
             still_fails(&case_line(b, &cat))
         };
-        let budget = |evals: u32| evals < 160 && t0.elapsed() < Duration::from_secs(45);
+        let budget = |evals: u32| evals < 160 && t0.elapsed() < Duration::from_secs(25);
         // 1. cut the tail
         let mut step = bytes.len() / 2;
         while step >= 1 && budget(evals) {
